@@ -5,10 +5,10 @@ MODEL_SHOW = "model_obs"
 DISAGREE_IS_VIOLATION = True   # observables are exactly what the property fixes
 HARNESS_TIMEOUT = 900
 RULE = ("fixed: every (service type gate/chat/room/unknown) x (method behaviour echo, fail, panic, never completes, "
-        "notify-shaped, unknown method, unknown group, undecodable payload, successful result the serializer cannot encode (+Inf float), successful result whose encoding PANICS (user MarshalJSON dereferencing nil), asynchronous completion (echo / unencodable result / result whose encoding panics, completed in a later turn of the service)) combination once as request and once as notification, "
+        "notify-shaped, unknown method, unknown group, REGISTERED METHOD UNDER A SPELLING THAT IS NOT REGISTERED (the Go method name, upper case, a capitalised group: handlers are registered under the name function's spelling only - MMisspelt: an unknown method, exactly one error response, the handler is not invoked; request- and notify-shaped methods, requests and notifications, front-local and forwarded, both serializers; 1/12 of the random routes), a successful result with ONLY DEFAULT-VALUED FIELDS (MZero: '{}' under JSON, ZERO BYTES under protobuf - a success, relayed with its flag AND its empty payload), undecodable payload, successful result the serializer cannot encode (+Inf float), successful result whose encoding PANICS (user MarshalJSON dereferencing nil), asynchronous completion (echo / unencodable result / result whose encoding panics, completed in a later turn of the service)) combination once as request and once as notification, "
         "for an unbound routing key and for keys naming chat-1, chat-2, an instance of the wrong type, a missing instance; the six "
         "malformed routes; connect-while-the-front-is-busy followed at once by forwarded requests (F12); the same request id in flight "
-        "twice to different instances; close with requests pending at a back-end; id 2^32-1; PROTOCOL STATE MACHINE: a second Handshake packet, its ack and heartbeats at any moment of an established connection, with a forwarded request parked / a relayed reply / an asynchronous completion / a time-out produced before the ack, and data packets sent in the handshake state (ignored by the server); SESSION-ID REUSE: every connection is handed an explicit numeric session id through the allocator hook (largest id 2^32-1, the wrap that skips 0, small ids), a connection parks a request at a never-answering back-end handler and closes, a new connection receives the recycled id and uses the same request id, then the time-out arrives; PIPELINED BURST WITH A NON-READING CLIENT: the client stops reading for 1.5 s and pipelines 11000 front-local + 1500 forwarded requests with 4 kB responses (thorough: up to 13000 x 8 kB and 11000 forwarded), >9999 responses pending on one connection (the run tags whether the send queue actually filled: it did), then reads: exactly one response per request id. random: 1-3 connections, 2-60 pipelined "
+        "twice to different instances; close with requests pending at a back-end; id 2^32-1; BOTH CLIENT SERIALIZERS (OProto switches node/client/impls/config to protobuf for the case - every harness method has a protobuf twin carrying the same argument; the whole behaviour matrix once under protobuf, 1/4 of the random cases); PROTOCOL STATE MACHINE: a second Handshake packet, its ack and heartbeats at any moment of an established connection, with a forwarded request parked / a relayed reply / an asynchronous completion / a time-out produced before the ack, and data packets sent in the handshake state (ignored by the server); SESSION-ID REUSE: every connection is handed an explicit numeric session id through the allocator hook (largest id 2^32-1, the wrap that skips 0, small ids), a connection parks a request at a never-answering back-end handler and closes, a new connection receives the recycled id and uses the same request id, then the time-out arrives; PIPELINED BURST WITH A NON-READING CLIENT: the client stops reading for 1.5 s and pipelines 11000 front-local + 1500 forwarded requests with 4 kB responses (thorough: up to 13000 x 8 kB and 11000 forwarded), >9999 responses pending on one connection (the run tags whether the send queue actually filled: it did), then reads: exactly one response per request id. random: 1-3 connections, 2-60 pipelined "
         "client actions (request 50%, notify 18%, set-routing-key 20%, advance clock past the 30 s forward time-out 3%, re-handshake / ack / heartbeat 2%, close 4%), routes "
         "drawn over all types/behaviours incl. malformed, ids incl. duplicates and varint boundaries. Connections get fresh, recycled (50% when a closed one exists) or - rarely - live-clashing (ignored) session-id slots; half of the closes are preceded by a request parked at a silent back-end handler. Every case ends with a drain, a clock "
         "advance and a sentinel round trip on every open connection. Non-trivial = at least one response was received; distinct = distinct op lists.")
@@ -28,12 +28,12 @@ ASSUMPTIONS = [
     "theorem C02_relayed_unchanged needs `calm`: the clock crosses a forward deadline only when no reply is in flight; otherwise the one response may be the time-out error (C02_one_response / C02_source cover that case)",
     "data packets a client sends between a re-handshake and its ack never become requests (session.go processPacket ignores them while status < working): Corr.prep removes them from the history; the harness does send them",
     "a connection in the handshake state cannot answer the driver's sentinel: its drain waits until its send queue is empty and the client stopped receiving (1 ms polls)",
-    "only the JSON client serializer is exercised (the proto serializer is a process-wide setting that would change the argument decoding of every harness method)",
+    "the client serializer is a configuration of the whole case (process-wide setting, switched only while nothing is outstanding); a response's payload is compared as a class: a reply of instance i with tag t / no content ('{}' resp. zero bytes) / an error",
     "time-outs are crossed with the virtual clock and an explicit expiry scan (VerifCheckExpired); the 1 s real timer that normally triggers the scan is not waited for",
 ]
 TECHNIQUE = "Coq proof (one inductive invariant over all interleavings of client operations and message deliveries, refinement to history functions `ledger`/`expected`) + differential correspondence against a real in-process node driven by a raw TCP client"
 LEVEL_TEXT = ("Machine-checked Coq theorems over ALL event lists (client operations of several connections interleaved with arbitrary deliveries, time-outs and closes) and ALL route functions: "
-              "exactly one response per request on its connection with its id (never two in any reachable state), produced locally iff the route names the front's type, otherwise the selected instance's reply unchanged "
+              "exactly one response per request on its connection with its id (never two in any reachable state), produced locally iff the route names the front's type, otherwise the selected instance's reply unchanged - error flag and payload, an empty successful payload included "
               "(or the time-out error), every unservable request answered with an error, notifications never answered and handed to the handler exactly once, nothing written after close. "
               "The model is of the REPAIRED code (three fixes delivered as hooks/C02-fix-*.patch; the failing histories stay in corpus/C02.jsonl); it is tied to the Go code by running both on the same histories each run and comparing every response (id, error flag, producing instance, tag) and every handler invocation.")
 
